@@ -59,7 +59,7 @@ func TestProp(t *testing.T) {
 	defer run.Finish()
 
 	snapRule := "a generated program (shared generator: all statement kinds, seeded dice of every enabled family, functions incl. recursive, computed values with attributes; plus C09's value trees: nested/mixed containers, extreme ints, long-fraction floats, Unicode/control characters in strings and keys, empty containers, functions and computed values inside containers) is cut into 1..5 segments; after a prefix the store of VM_A is serialised (ValueMap.ToJSON, or VMValue.ToJSON per variable) and decoded into a fresh VM_B with the same configuration and A's current generator state; oracle: restored store structurally equal, second round trip identical up to key order, and every remaining segment gives equal error-ness, Ret, Matched/RestInput, process text, variables, generator state and operation count on A and B. Aliasing between variables is excluded by construction and by a dynamic check (open finding). Non-trivial = a function/computed value of the snapshot is lazily compiled by a follow-up, or the snapshot holds a container nested >= 2 deep; distinct by segments+cut+mode"
-	run.Check("snap", 20000, 300000, snapRule, func(t *rapid.T, s *rt.Section) {
+	run.Check("snap", 12000, 120000, snapRule, func(t *rapid.T, s *rt.Section) {
 		c := drawSnap(t, run.AvoidOn(avoidAlias))
 		s.Eval()
 		s.Crumb(c)
@@ -81,7 +81,7 @@ func TestProp(t *testing.T) {
 	})
 
 	valRule := "one variable x holding a deep value: tree (depth 2..4, mixed containers, all leaf kinds incl. functions), computed value whose attributes hold trees, DAG (a sub-container used 2-4 times inside x, sharing depth <= 2), reference cycle (array in itself, dict in itself, cycle through array+dict, computed value in its own attributes), or a non-finite float (+Inf, -Inf, NaN) at a leaf; VMValue.ToJSON -> VMValueFromJSON (or the whole store) and 0..3 read-only follow-ups (path reads, calls of contained functions, computed reads, comparison with the literal, text). Oracle: cycles and non-finite floats give an error and leave the VM usable; everything else round-trips structurally, re-encodes identically and behaves identically. Non-trivial = error case confirmed, or nesting >= 2, or a restored function/computed evaluated; distinct by program text"
-	run.Check("values", 8000, 120000, valRule, func(t *rapid.T, s *rt.Section) {
+	run.Check("values", 5000, 60000, valRule, func(t *rapid.T, s *rt.Section) {
 		c := drawValue(t, func() bool { return s.Avoid(avoidDag) })
 		s.Eval()
 		s.Crumb(c)
@@ -108,7 +108,7 @@ func TestProp(t *testing.T) {
 const enumSetup = "func f(a) { return a * 2 + 1 }; &c = 1 + (this.hp ?? 2); &c.hp = 5"
 
 var enumLeavesQuick = []string{"0", "-7", "9223372036854775807", "0.1", "'é\"\\n力'", "''", "null", "f", "&c"}
-var enumLeavesThorough = []string{"0", "-7", "9223372036854775807", "0.1", "'é\"\\n力'", "''", "null", "f", "&c", "123456789.123456789", "'\x00<&>'", "true"}
+var enumLeavesThorough = []string{"0", "-7", "9223372036854775807", "0.1", "'é\"\\n力'", "''", "null", "f", "&c", "'\x00<&>'"}
 
 type enumCase struct {
 	Lit  string `json:"lit"`
@@ -131,98 +131,201 @@ func replayEnum(b []byte, s *rt.Section) *rt.Failure {
 	return f
 }
 
-func containers(children []string, maxLen int) []string {
-	var out []string
-	keys := []string{"'a'", "'力 b'", "'0'"}
-	var rec func(prefix []string, n int)
-	rec = func(prefix []string, n int) {
-		if len(prefix) == n {
-			out = append(out, "["+strings.Join(prefix, ", ")+"]")
-			var kv []string
-			for i, p := range prefix {
-				kv = append(kv, keys[i]+": "+p)
+// spec is one enumerated value: a leaf of the alphabet or a container of specs.
+type spec struct {
+	leaf int // index into the leaf alphabet, -1 for containers
+	dict bool
+	kids []*spec
+}
+
+var enumKeys = []string{"a", "力 b", "0"}
+
+func (sp *spec) text(leaves []string) string {
+	if sp.leaf >= 0 {
+		return leaves[sp.leaf]
+	}
+	var parts []string
+	for i, k := range sp.kids {
+		if sp.dict {
+			parts = append(parts, "'"+enumKeys[i]+"': "+k.text(leaves))
+		} else {
+			parts = append(parts, k.text(leaves))
+		}
+	}
+	if sp.dict {
+		return "{" + strings.Join(parts, ", ") + "}"
+	}
+	return "[" + strings.Join(parts, ", ") + "]"
+}
+
+// build constructs the value with the constructors the VM itself uses for literals (push.arr -> NewArrayVal,
+// push.dict -> NewDictValWithArray); leaves are clones of values a script produced.
+func (sp *spec) build(leafVals []*ds.VMValue) *ds.VMValue {
+	if sp.leaf >= 0 {
+		return leafVals[sp.leaf].Clone()
+	}
+	var items []*ds.VMValue
+	for i, k := range sp.kids {
+		if sp.dict {
+			items = append(items, ds.NewStrVal(enumKeys[i]))
+		}
+		items = append(items, k.build(leafVals))
+	}
+	if sp.dict {
+		d, err := ds.NewDictValWithArray(items...)
+		if err != nil {
+			return nil
+		}
+		return d.V()
+	}
+	return ds.NewArrayVal(items...)
+}
+
+// forEachContainer calls fn for every array and dict of 0..maxLen children drawn from pool (minLen..maxLen).
+func forEachContainer(pool []*spec, minLen, maxLen int, fn func(*spec) bool) bool {
+	idx := make([]int, maxLen)
+	for n := minLen; n <= maxLen; n++ {
+		for i := range idx {
+			idx[i] = 0
+		}
+		for {
+			kids := make([]*spec, n)
+			for i := 0; i < n; i++ {
+				kids[i] = pool[idx[i]]
 			}
-			out = append(out, "{"+strings.Join(kv, ", ")+"}")
-			return
-		}
-		for _, c := range children {
-			rec(append(prefix, c), n)
+			if !fn(&spec{leaf: -1, kids: kids}) || !fn(&spec{leaf: -1, dict: true, kids: kids}) {
+				return false
+			}
+			p := n - 1
+			for p >= 0 {
+				idx[p]++
+				if idx[p] < len(pool) {
+					break
+				}
+				idx[p] = 0
+				p--
+			}
+			if p < 0 {
+				break
+			}
 		}
 	}
-	for n := 0; n <= maxLen; n++ {
-		rec(nil, n)
-	}
-	return out
+	return true
 }
 
 func enumerate(s *rt.Section, run *rt.Run) {
 	leaves := enumLeavesQuick
+	len1, len2 := 2, 2
 	if run.Env.Thorough() {
 		leaves = enumLeavesThorough
+		len1 = 3
 	}
 	s.Exhaustive = true
-	s.Bounds = fmt.Sprintf("%d leaves %v; level 1 = arrays/dicts of 0..2 leaves; level 2 = arrays/dicts of 1..2 values of level <= 1", len(leaves), leaves)
-	level1 := containers(leaves, 2)
-	upTo1 := append(append([]string{}, leaves...), level1...)
-	level2 := containers(upTo1, 2)
-	all := append(append([]string{}, upTo1...), level2...)
-	if run.Env.Thorough() {
-		s.Bounds += "; level 3 = arrays/dicts of exactly 1 value of level 2"
-		for _, v := range level2 {
-			all = append(all, "["+v+"]", "{'a': "+v+"}")
-		}
-	}
+	s.Bounds = fmt.Sprintf("%d leaves %q (script-built); level 1 = arrays and dicts of 0..%d leaves; level 2 = arrays and dicts of 1..%d values of level <= 1; dict keys %q in order", len(leaves), leaves, len1, len2, enumKeys)
 	vm := vmx.Cfg{OpLimit: 30000, SeedHex: "000102030405060708090a0b0c0d0e0f"}.NewVM()
 	if err := vm.Run(enumSetup); err != nil {
 		s.Report(nil, s.NewFailure("harness", "harness:enum-setup", nil, err.Error(), "setup runs"))
 		return
 	}
-	var total int64
-	for i, lit := range all {
-		if i%run.Env.NShards != run.Env.Shard {
-			continue
+	var leafVals []*ds.VMValue
+	var pool []*spec
+	for i, l := range leaves {
+		if err := vm.Run("x = " + l); err != nil || strings.TrimSpace(vm.RestInput) != "" {
+			s.Report(nil, s.NewFailure("harness", "harness:enum-leaf", l, fmt.Sprint(err, vm.RestInput), "leaf evaluates"))
+			return
+		}
+		v, _ := vm.Attrs.Load("x")
+		leafVals = append(leafVals, v.Clone())
+		pool = append(pool, &spec{leaf: i})
+	}
+	nLeaves := len(pool)
+	forEachContainer(pool[:nLeaves], 0, len1, func(sp *spec) bool {
+		pool = append(pool, sp)
+		return true
+	})
+	var total, index int64
+	stop := false
+	visit := func(sp *spec, level int) bool {
+		index++
+		if int(index)%run.Env.NShards != run.Env.Shard {
+			return true
 		}
 		total++
 		mode := "value:x"
-		if i%3 == 1 {
+		if index%3 == 1 {
 			mode = "map"
 		}
+		v := sp.build(leafVals)
+		fnOrComp := false
+		var walk func(*spec)
+		walk = func(q *spec) {
+			if q.leaf >= 0 && (leaves[q.leaf] == "f" || leaves[q.leaf] == "&c") {
+				fnOrComp = true
+			}
+			for _, k := range q.kids {
+				walk(k)
+			}
+		}
+		walk(sp)
+		viaScript := total%499 == 1
+		if level >= 2 || fnOrComp {
+			s.NonTrivial(uint64(index)*0x9e3779b97f4a7c15 + uint64(len(leaves)))
+		}
+		ok := v != nil && quickValue(v, mode)
+		var lit string
+		if ok && viaScript {
+			// the constructed value is the value the script builds
+			lit = sp.text(leaves)
+			ok = false
+			if err := vm.Run("x = " + lit); err == nil && strings.TrimSpace(vm.RestInput) == "" {
+				sv, _ := vm.Attrs.Load("x")
+				ok = vmx.Repr(sv) == vmx.Repr(v) && quickValue(sv, mode)
+			}
+			s.Class("also-built-by-script")
+			s.Sample(rt.Hash(lit), enumCase{Lit: lit, Mode: mode})
+		}
+		if ok {
+			return true
+		}
+		lit = sp.text(leaves)
 		ec := enumCase{Lit: lit, Mode: mode}
-		nested := i >= len(upTo1)
-		if nested || strings.Contains(lit, "f") || strings.Contains(lit, "&c") {
-			s.NonTrivial(rt.Hash(lit))
-		}
-		if total%9973 == 1 {
-			s.Sample(rt.Hash(lit), ec)
-		}
-		if quickLiteral(vm, lit, mode) {
-			continue
-		}
 		f, _ := checkCase(ec.toCase(), s)
 		if f == nil {
-			f = s.NewFailure("harness", "harness:enum-disagrees-with-oracle", ec, "the fast path rejects the literal, the full oracle accepts it", "agreement")
+			f = s.NewFailure("harness", "harness:enum-disagrees-with-oracle", ec, "the constructed value fails the round trip, the script-built one passes the full oracle", "agreement")
 		} else {
 			b, _ := json.Marshal(ec)
 			f.Case = b
 		}
 		if s.Report(nil, f) {
+			stop = true
+			return false
+		}
+		return true
+	}
+	for i, sp := range pool {
+		lv := 1
+		if i < nLeaves {
+			lv = 0
+		}
+		if !visit(sp, lv) {
 			break
 		}
+	}
+	if !stop {
+		forEachContainer(pool, 1, len2, func(sp *spec) bool { return visit(sp, 2) })
 	}
 	s.EvalN(total)
 }
 
-// quickLiteral is the fast path of the enumeration on a long-lived VM: true when the literal round-trips.
-func quickLiteral(vm *ds.Context, lit string, mode string) bool {
+// quickValue: the value round-trips structurally and re-encodes to the same document up to key order.
+func quickValue(v *ds.VMValue, mode string) bool {
 	ok := false
 	pi := rt.Guard(func() {
-		if err := vm.Run("x = " + lit); err != nil || strings.TrimSpace(vm.RestInput) != "" {
-			return
-		}
-		v, _ := vm.Attrs.Load("x")
 		want := vmx.Repr(v)
 		if mode == "map" {
-			b, err := vm.Attrs.ToJSON()
+			src := &ds.ValueMap{}
+			src.Store("x", v)
+			b, err := src.ToJSON()
 			if err != nil {
 				return
 			}
